@@ -79,27 +79,81 @@ def lock_level_protocol(chk: Check):
                 chk.loc(acq.module, acq.node))
 
 
+def fresh_lock_per_attempt(chk: Check):
+    """Lock objects carry a level (taken / not taken): `dependency.lock()` must hand out a new object for every start attempt, otherwise a level
+    left over from a failed attempt (any exception in _acquire) makes the next acquire() a silent no-op: the job runs without holding anything"""
+    tree = chk.tree
+    n = 0
+    for f in tree.nontest_funcs():
+        if f.node.name != "lock" or f.cls is None or f.module.name not in ("tokens", "scheduler.base", "scheduler.dependencies"):
+            continue
+        if not any(k.qual.endswith("Dependency") for k in tree.mro(f.cls)):
+            continue
+        g = CFG(f.node)
+        rd = ReachingDefs(g)
+        rets = [x for x in g.live if x.kind == "stmt" and isinstance(x.ast, ast.Return)]
+        if not rets:
+            continue  # abstract
+        if all(isinstance(x_, ast.Raise) for x_ in f.node.body if not isinstance(x_, ast.Expr)):
+            continue
+        n += 1
+        ok = True
+        for r_ in rets:
+            v = r_.ast.value
+            cv = rd.subst(v, r_) if v is not None else None
+            ok = ok and isinstance(cv, ast.Call) and isinstance(cv.func, ast.Name) and cv.func.id[:1].isupper()
+        chk.require(ok, chk.fkey(f, "fresh lock object"), f"`{f.qual}` returns {[src(r_.ast.value) for r_ in rets if r_.ast.value is not None]}: every call must construct a new lock", chk.loc(f.module, f.node))
+    chk.min_instances(n, 2, "lock() factories of dependencies")
+
+
 def r1_pairing(chk: Check):
     tree = chk.tree
     n = 0
     # every acquisition of a dependency lock is owned by a `with Locks() as L` block at the moment it is taken
     for f in tree.nontest_funcs():
-        for c in fn_calls(f.node):
-            if src(c).endswith(".lock().acquire()"):
-                n += 1
-                par = getattr(c, "_parent", None)
-                owner = None
-                if isinstance(par, ast.Call) and tail(par) == "append" and c in par.args:
-                    lname = dotted(par.func.value) if isinstance(par.func, ast.Attribute) else None
-                    for a in _anc(c):
-                        if isinstance(a, (ast.With, ast.AsyncWith)):
-                            for i in a.items:
-                                if src(i.context_expr) == "Locks()" and i.optional_vars is not None and dotted(i.optional_vars) == lname:
-                                    owner = a
-                chk.require(owner is not None, chk.fkey(f, "acquired lock owned by with Locks()"),
-                            f"`{src(c)}` in `{f.qual}`: the acquired dependency lock is not appended to the Locks object of an enclosing `with Locks() as ...` block, "
-                            "so it is not released when the start is aborted (another dependency cannot be locked), fails or raises -- the tokens it took are never given back",
-                            chk.loc(f.module, c))
+        if not any(isinstance(c.func, ast.Attribute) and c.func.attr == "acquire" for c in fn_calls(f.node)):
+            continue
+        gf = CFG(f.node)
+        rdf = ReachingDefs(gf)
+        for node, c in gf.call_nodes(lambda c: isinstance(c.func, ast.Attribute) and c.func.attr == "acquire"):
+            recv = c.func.value
+            if not (src(c).endswith(".lock().acquire()") or rdf.canon(recv, node).endswith(".lock()")):
+                continue
+            n += 1
+
+            def locks_blocks(at):
+                out = {}
+                for a_ in _anc(at):
+                    if isinstance(a_, (ast.With, ast.AsyncWith)):
+                        for i in a_.items:
+                            if src(i.context_expr) == "Locks()" and i.optional_vars is not None:
+                                out[dotted(i.optional_vars)] = a_
+                return out
+
+            blocks = locks_blocks(c)
+            par = getattr(c, "_parent", None)
+            owner = None
+            early = None
+            if isinstance(par, ast.Call) and tail(par) == "append" and c in par.args and isinstance(par.func, ast.Attribute) and dotted(par.func.value) in blocks:
+                owner = blocks[dotted(par.func.value)]
+            elif isinstance(recv, ast.Name):
+                # `lock = dep.lock(); lock.acquire(); locks.append(lock)`: recorded once it is really held
+                apps = [(m, a_) for m, a_ in gf.call_nodes(lambda a_: tail(a_) == "append" and len(a_.args) == 1 and isinstance(a_.args[0], ast.Name) and a_.args[0].id == recv.id
+                                                            and isinstance(a_.func, ast.Attribute) and dotted(a_.func.value) in blocks)]
+                for m, a_ in apps:
+                    if gf.dominates(node, m):
+                        owner = blocks[dotted(a_.func.value)]
+                    elif gf.dominates(m, node):
+                        early = a_
+            if early is not None:
+                chk.violation(chk.fkey(f, "lock recorded before it is held"), f"`{src(early)}` in `{f.qual}` puts the dependency lock into the Locks set before `{src(c)}`: when the acquisition is refused "
+                              "(LockError) the set still releases it, giving back a holding that was never taken -- for a token this deletes the token file of the same job held by another scheduler, "
+                              "whose capacity is then handed out twice", chk.loc(f.module, early))
+                continue
+            chk.require(owner is not None, chk.fkey(f, "acquired lock owned by with Locks()"),
+                        f"`{src(c)}` in `{f.qual}`: the acquired dependency lock is not appended to the Locks object of an enclosing `with Locks() as ...` block, "
+                        "so it is not released when the start is aborted (another dependency cannot be locked), fails or raises -- the tokens it took are never given back",
+                        chk.loc(f.module, c))
     chk.min_instances(n, 1, "dependency lock acquisitions")
     # Locks._release releases every member; Lock.__exit__ -> release -> _release; CounterTokenLock._release -> token.release
     lr = tree.func("locking", "Locks._release")
@@ -111,6 +165,7 @@ def r1_pairing(chk: Check):
     ex = tree.func("locking", "Lock.__exit__")
     chk.require(any(src(c) == "self.release()" for c in fn_calls(ex.node)), chk.fkey(ex, "exit releases"), "Lock.__exit__ must call release()", chk.loc(ex.module, ex.node))
     lock_level_protocol(chk)
+    fresh_lock_per_attempt(chk)
     tl = tree.func("tokens", "CounterTokenLock._release")
     chk.require(any(src(c) in ("self.dependency.token.release(self.dependency)", "self.dependency._token.release(self.dependency)") for c in fn_calls(tl.node)), chk.fkey(tl, "token release"), "CounterTokenLock._release must release the token", chk.loc(tl.module, tl.node))
     # the Locks object enters with level 1 so that __exit__ releases: `with Locks() as locks` -> __enter__ -> acquire
@@ -147,6 +202,15 @@ def r2_release_restores_and_notifies(chk: Check):
     loops = [x for x in body_walk(an.node) if isinstance(x, ast.For)]
     ok = len(loops) == 1 and any(isinstance(c, ast.Call) and tail(c) == "call_soon_threadsafe" for c in walk_local(loops[0]))
     chk.require(ok, chk.fkey(an, "schedules a check of each dependent"), "aio_notify must schedule a check of every dependent on its loop", chk.loc(an.module, an.node))
+    if ok:
+        gan = CFG(an.node)
+        heads = [n for n in gan.live if n.kind == "for" and n.ast is loops[0]]
+        sched = [n for n, c in gan.call_nodes(lambda c: tail(c) in ("call_soon_threadsafe", "call_soon"))]
+        if heads and sched:
+            start = [m for m, l in heads[0].succ if l == "loop"][0]
+            every = gan.on_every_path(sched, start=start, end=heads[0])
+            chk.require(every, chk.fkey(an, "every dependent, whatever its state"), "aio_notify schedules the re-check only for some dependents: a job whose start is being aborted is not WAITING yet when the "
+                        "token comes back, and nothing notifies it afterwards", chk.loc(an.module, loops[0]))
     ck = tree.func("tokens", "Token.aio_notify.check")
     gck = CFG(ck.node)
     cks = gck.call_nodes(lambda c: src(c) == "dependency.check()")
